@@ -199,6 +199,11 @@ class OsFacade:
 
             def mediated(*args, **kw):
                 a.yield_point('%s:%s' % (name, os.path.basename(str(args[0])) if args else ''))
+                if name in ('link', 'symlink', 'mkdir', 'makedirs', 'rename', 'replace') and w.enospc.get(a.name, 0) > 0:
+                    w.enospc[a.name] -= 1
+                    w.ctx.count('fault.enospc.fired')
+                    w.ctx.count('fault.enospc.at.' + name)
+                    raise OSError(28, 'No space left on device', str(args[-1]))
                 r = real(*args, **kw)
                 if name in ('rename', 'replace', 'link', 'symlink') and len(args) > 1:
                     w.events.append((name, os.path.basename(str(args[1]))))
@@ -220,6 +225,11 @@ class TempfileFacade:
 
     def mkdtemp(self, suffix=None, prefix=None, dir=None):
         self._a.yield_point('mkdtemp')
+        if self._w.enospc.get(self._a.name, 0) > 0:
+            self._w.enospc[self._a.name] -= 1
+            self._w.ctx.count('fault.enospc.fired')
+            self._w.ctx.count('fault.enospc.at.mkdtemp')
+            raise OSError(28, 'No space left on device', str(dir))
         d = os.path.join(dir or self._w.root, self._name(prefix, suffix))
         os.mkdir(d, 0o700)
         self._w.stamp(d)
@@ -287,20 +297,45 @@ class ShutilFacade:
         except Killed:
             raise
 
-    def _mediated(self, name):
-        real = getattr(_shutil, name)
+    def _copy(self, src, dst, follow_symlinks=True):
+        # a copy is NOT atomic: the destination grows chunk by chunk
+        src, dst = os.fspath(src), os.fspath(dst)
+        if os.path.isdir(dst):
+            dst = os.path.join(dst, os.path.basename(src))
+        with open(src, 'rb') as f:
+            data = f.read()
+        with FileProxy(self._w, self._a, dst, 'wb') as out:
+            out.write(data)
+        return dst
 
-        def f(*a, **kw):
-            self._a.yield_point('%s:%s' % (name, os.path.basename(str(a[1])) if len(a) > 1 else ''))
-            r = real(*a, **kw)
-            if len(a) > 1 and os.path.exists(str(a[1])):
-                self._w.stamp(str(a[1]))
-            return r
-        return f
+    def copyfile(self, src, dst, **kw):
+        return self._copy(src, dst)
+
+    def copy(self, src, dst, **kw):
+        d = self._copy(src, dst)
+        self._a.yield_point('chmod:' + os.path.basename(d))
+        _shutil.copymode(src, d)
+        return d
+
+    def copy2(self, src, dst, **kw):
+        d = self._copy(src, dst)
+        self._a.yield_point('copystat:' + os.path.basename(d))
+        _shutil.copystat(src, d)
+        self._w.stamp(d)
+        return d
+
+    def move(self, src, dst, **kw):
+        src, dst = os.fspath(src), os.fspath(dst)
+        real_dst = os.path.join(dst, os.path.basename(src)) if os.path.isdir(dst) else dst
+        self._a.yield_point('rename:' + os.path.basename(real_dst))
+        os.rename(src, real_dst)        # same file system: an atomic rename
+        return real_dst
+
+    def copytree(self, src, dst, **kw):
+        self._a.yield_point('copytree:' + os.path.basename(str(dst)))
+        return _shutil.copytree(src, dst, **kw)
 
     def __getattr__(self, name):
-        if name in ('move', 'copy', 'copy2', 'copyfile', 'copytree'):
-            return self._mediated(name)
         return getattr(_shutil, name)
 
 
@@ -651,7 +686,7 @@ def _run(ctx, root):
                 ctx.log(['kill', a.name, a.label, s.step])
                 faulted.add(a.name)
                 return 'kill'
-        if state['enospc'] > 0 and a.label.startswith(('write', 'open')):
+        if state['enospc'] > 0 and a.label.startswith(('write', 'open', 'link', 'mkdtemp', 'makedirs', 'mkdir', 'cython', 'gcc', 'ld')):
             if fault.chance(15):
                 state['enospc'] -= 1
                 w.enospc[a.name] = 1 + fault.choice(2)
@@ -806,6 +841,16 @@ def run_case(ctx):      # noqa: F811 -- dispatch on the layer
     return _run_case_layer_a(ctx)
 
 
+def static_checks(seed):
+    """replay of a clean-build-failed report"""
+    from . import cachesim_real
+    try:
+        cachesim_real.prepare(os.path.join(env.scratch_root(), 'ref-replay'))
+    except cachesim_real.CleanBuildFailed as e:
+        return [('clean-build-failed', str(e)[:1500], {})], {}
+    return [], {}
+
+
 def prepare_replay(params):
     if params and params.get('layer') == 'B':
         from . import cachesim_real
@@ -828,6 +873,17 @@ def main_check(prop, tier, seed, cfg, args):
         try:
             cachesim_real.prepare(ref)
             conf = cachesim_real.conformance(ref)
+        except cachesim_real.CleanBuildFailed as e:
+            # a plain request into an empty cache, no fault, no concurrency, fails: that is a verdict on pyiga
+            os.makedirs(runner.REPLAY_DIR, exist_ok=True)
+            path = os.path.join(runner.REPLAY_DIR, '%s-clean-build-failed.json' % prop)
+            with open(path, 'w') as f:
+                json.dump({'property': prop, 'engine': 'vsim.cachesim', 'static': True, 'invariant': 'clean-build-failed',
+                           'signature': {'invariant': 'clean-build-failed', 'what': 'clean-build'}, 'detail': str(e)[:1500],
+                           'seed': seed, 'tier': tier, 'choices': {}}, f, indent=1)
+            print('VIOLATION property=%s replay=%s' % (prop, path))
+            print('  invariant=clean-build-failed\n  detail: %s' % str(e)[:600])
+            return 1
         except Exception as e:
             print('HARNESS-ERROR property=%s layer B preparation failed: %r' % (prop, e))
             return 2
